@@ -503,7 +503,7 @@ def add_invariant_condition_apply_function_to_problem_expressions(
                         timing, _apply_function_to_effect(effect, function)
                     )
                 interval = TimePointInterval(timing)
-                if interval not in new_action.conditions:
+                if interval not in new_action.conditions and not condition.is_true():
                     new_action.add_condition(interval, condition)
         else:
             raise NotImplementedError
@@ -523,7 +523,7 @@ def add_invariant_condition_apply_function_to_problem_expressions(
                 timing, _apply_function_to_effect(effect, function)
             )
         interval = TimePointInterval(timing)
-        if interval not in new_problem.timed_goals:
+        if interval not in new_problem.timed_goals and not condition.is_true():
             new_problem.add_timed_goal(interval, condition)
 
     new_goal = em.And(*map(function, original_problem.goals), condition).simplify()
